@@ -40,9 +40,13 @@ SPEC = dict(
         "roster); a push may carry any number of items, the code applies all of them in order and so does the model",
         "item payload limited to jid/name/subscription/groups (ask, approved, MIX annotations are parsed by the same code path but not observed)",
         "key order of the maps is not modelled (observations are sorted); driver-side display sorts and de-duplicates groups like QSet",
-        "session-level exactness (session_view_exact) is proved at connected moments under the environment assumption "
-        "resumesContinueSmSession: a resumed connect continues the latest session and that session had stream management "
-        "(session_view_needs_assumption proves the assumption cannot be dropped); the harness generates resumptions only then",
+        "session_view_exact carries the named hypothesis resumesContinueSmSession (plus connectedNow): at every resumed connect no "
+        "established session has ended without stream management since the latest non-resumed connect, i.e. a resumption continues the "
+        "latest session and that session had SM. It is an ENVIRONMENT assumption about server + stream layer, not about the roster code: "
+        "a conforming server cannot violate it (XEP-0198: <resumed/> only answers <resume/>, and since repo commit c590ae4 the client "
+        "sends <resume/> only if its latest session negotiated resumable SM); only a non-conforming server (e.g. an unsolicited "
+        "<resumed/> inside a SASL 2 success after a session without SM) could, and then the cache is EMPTY, never stale or foreign "
+        "(session_view_needs_assumption exhibits exactly that history). The harness generates resumptions only under the assumption",
     ],
     level_text="Theorems for every history: TOP roster_is_fold_of_honest_traffic — contact list = specView of the events an observer of "
                "the stream determines with three literal rules (push <=> roster set with no sender or bare(sender)=configured bare JID; full "
@@ -54,8 +58,9 @@ SPEC = dict(
                "Mutator API and setJid change no state (api_changes_nothing, setJid_changes_no_state); remove of an unknown JID is silent. "
                "Authorised push applied and acknowledged exactly once to its sender; isRosterReceived exact; presence table exact incl. stored "
                "status; no duplicate keys; nothing survives a non-resumed connect (direct and non-interference form); view kept across "
-               "resumption; a `disconnected` outside an established session changes nothing; session-level exactness under one named "
-               "environment assumption, shown necessary. Model tied to the real manager+client by exhaustive and random correspondence; the "
+               "resumption; a `disconnected` outside an established session changes nothing; session_view_exact (property's own session "
+               "boundaries, at connected moments) under the named environment hypothesis resumesContinueSmSession (see assumptions; spelled "
+               "out by resumesContinueSmSession_iff, shown necessary by session_view_needs_assumption). Model tied to the real manager+client by exhaustive and random correspondence; the "
                "property (incl. 'a forged result / an API call / a JID change leaves the view alone') is also evaluated directly on the "
                "implementation by a reference fold over the history.",
     level_note="Proved about the hand-written model; the model-to-code tie is differential (exhaustive to depth 5/6 (roster, forgery/API) and 6/7 (presence) over compact alphabets, "
